@@ -72,6 +72,13 @@ def execHex (cfg : PureCfg) : List String → String
     match parseHexTok h, parseNat s, parseNat e with
     | some x, some s, some e => showOptBytes (x.rangeIncl s e) ++ " ; " ++ showOptBytes (sliceIncl x.toBytes s e)
     | _, _, _ => "bad-op"
+  | ["rangeinclx", h, s, e] =>
+    -- the same inclusive range after it was iterated to its end (flag `exhausted`); an empty range cannot be exhausted
+    match parseHexTok h, parseNat s, parseNat e with
+    | some x, some s, some e =>
+      if s ≤ e then showOptBytes (x.rangeInclX e) ++ " ; " ++ showOptBytes (sliceInclX x.toBytes e)
+      else showOptBytes (x.rangeIncl s e) ++ " ; " ++ showOptBytes (sliceIncl x.toBytes s e)
+    | _, _, _ => "bad-op"
   | ["rangefrom", h, s] =>
     match parseHexTok h, parseNat s with
     | some x, some s => showOptBytes (x.rangeFrom s) ++ " ; " ++ showOptBytes (sliceRange x.toBytes s x.toBytes.length)
